@@ -753,8 +753,8 @@ func (ev *SpecEnv) call(n *SCall) TV {
 		case *Term:
 			return TV{x.intLt(v, ev.old.alloc), boolT}
 		}
-	case "visited":
-		// visited(k): key k was already produced by the map iteration of the enclosing loop
+	case "visited", "nvisited":
+		// visited(k): key k was already produced by the map iteration of the enclosing loop; nvisited(): how many were
 		if ev.loop == nil || ev.fr == nil {
 			unsupp("visited(k) outside a loop invariant")
 		}
@@ -773,8 +773,11 @@ func (ev *SpecEnv) call(n *SCall) TV {
 		if !ok {
 			unsupp("visited(k): iteration not started")
 		}
+		if name == "nvisited" {
+			return TV{vis.(TupleV)[1].(*Term), intT}
+		}
 		k := ev.eval(n.Args[0])
-		return TV{tc.Select(vis.(*Term), x.asComparable(k.v).(*Term)), boolT}
+		return TV{tc.Select(vis.(TupleV)[0].(*Term), x.asComparable(k.v).(*Term)), boolT}
 	case "at":
 		// at(s, p): element of slice s's backing array at absolute position p (p ranges over s.off .. s.off+len(s)-1)
 		a := ev.eval(n.Args[0])
